@@ -4,11 +4,12 @@ import PsyVerif.Gen.Intrinsics
 open Proto C11
 
 /-! Line protocol for C11.
-`(acc <pinned|fixed1|fixed3|fixed|ideal> <stmt>)` → `none` | `(<end-location> (var kind loc nidx) ...)`
+`(acc <pinned|fixed1|fixed3|fixed|fixed5|ideal> <stmt>)` → `none` | `(<end-location> (var kind loc nidx) ...)`
 `(trace <stmt> (<bindings>) ((site mask) ...))` → `((r x i j) (w x i j) ...)`: events of `execT` from the
 store given by the bindings; the callee at call site `site` stores `old+1` into its p-th by-reference argument
 iff bit p of `mask` is set (sites not listed: every argument).  `(call p m f args..)`: `m` = `n` (callee definition
-not available) or the mask of its non-INTENT(IN) dummies.  DO WHILE loops are traced for at most 3 iterations. -/
+not available) or the mask of its non-INTENT(IN) dummies.  `(cb f (names..) (rd..) dv)`: expression CodeBlock, `dv` = `n` or the
+designated variable.  DO WHILE loops are traced for at most 3 iterations. -/
 
 def spineOf : List C11.Expr → C11.Expr
   | [] => .nil
@@ -29,6 +30,7 @@ partial def parseE : Sexp → Option C11.Expr
   | .list [.atom "bin", .atom op, a, b] => do some (.bin (← MiniF.binOpOf op) (← parseE a) (← parseE b))
   | .list (.atom "intr" :: k :: es) => do some (.intr (← k.nat?) (spineOf (← es.mapM parseE)))
   | .list (.atom "fcall" :: p :: f :: es) => do some (.fcall (← boolOf p) (← f.nat?) (spineOf (← es.mapM parseE)))
+  | .list [.atom "cb", f, ns, rd, dv] => do some (.cb (← f.nat?) ns.natList rd.natList dv.nat?)
   | .list (.atom "tup" :: es) => do some (spineOf (← es.mapM parseE))
   | _ => none
 
@@ -63,6 +65,7 @@ def ruleOf : String → Option Rule
   | "fixed1" => some fixed1Rule
   | "fixed3" => some fixed3Rule
   | "fixed" => some fixedRule
+  | "fixed5" => some fixed5Rule
   | "ideal" => some idealRule
   | _ => none
 
